@@ -329,14 +329,14 @@ Qed.
 
 (* ---- enumerate, memorize, append ------------------------------------------------- *)
 Lemma enumerate_yields n i v i' dp dt : YieldsD i v i' dp dt ->
-  YieldsD (Enumerate n i) (VList true [VInt n; v]) (Enumerate (n + 1) i') dp dt.
+  YieldsD (Enumerate n i) (VList false [VInt n; v]) (Enumerate (n + 1) i') dp dt.
 Proof. intros H s. destruct (H s) as [fu E]. exists (S fu). cbn [next]. rewrite E. reflexivity. Qed.
 
 Lemma enumerate_ends n i dp dt : EndsD i dp dt -> EndsD (Enumerate n i) dp dt.
 Proof. intros H s. destruct (H s) as [fu E]. exists (S fu). cbn [next]. rewrite E. reflexivity. Qed.
 
 Definition enum_vals (n : Z) (l : list val) : list val :=
-  map (fun p => VList true [VInt (fst p); snd p]) (enumerate_l n l).
+  map (fun p => VList false [VInt (fst p); snd p]) (enumerate_l n l).
 
 Lemma enumerate_steps l : forall n i dp dt i', StepsD i l dp dt i' ->
   StepsD (Enumerate n i) (enum_vals n l) dp dt (Enumerate (n + Z.of_nat (length l)) i').
